@@ -302,6 +302,10 @@ func (c *lockCtx) scan(f *ssa.Function) {
 			o.Auto("function is reachable from the entry points only through a locked region")
 			return
 		}
+		if strings.HasPrefix(desc, "atomic update") {
+			o.Fail("%s in a function reachable from the concurrent entry points: no data race, but the value is state that one call leaves behind for all others on the shared object — a call's result then depends on what else is in flight", desc)
+			return
+		}
 		o.Fail("%s in a function reachable from the concurrent entry points without the lock held: data race on state shared by all users of the codec", desc)
 	}
 	for _, b := range f.Blocks {
